@@ -138,11 +138,17 @@ def extract(cfg, log=None):
         lock.close()
 
 
-def _prune_cache(cfg, keep, maxn=6):
+def _prune_cache(cfg, keep, maxn=40, max_age_s=6 * 3600):
+    """Drop cache entries that are old, or beyond a generous count (parallel self-test runs share the cache)."""
     ents = [os.path.join(CACHE, e) for e in os.listdir(CACHE) if e.startswith(cfg + "-") and ".tmp" not in e]
     ents = [e for e in ents if e != keep]
     ents.sort(key=lambda e: os.path.getmtime(e))
-    for e in ents[:-maxn] if len(ents) > maxn else []:
+    now = time.time()
+    drop = [e for e in ents if now - os.path.getmtime(e) > max_age_s]
+    rest = [e for e in ents if e not in drop]
+    if len(rest) > maxn:
+        drop += rest[:-maxn]
+    for e in drop:
         shutil.rmtree(e, ignore_errors=True)
 
 
